@@ -22,7 +22,7 @@ RULE = ("a hostile packet recipe (templates: V2 response, V3 handshake reply, V3
         "Device.authenticate/Device._send_command, AirConditioner.refresh). Oracle: LAN calls end in list-of-bytes / ProtocolError "
         "(incl. AuthenticationError) / TimeoutError; Device.authenticate only AuthenticationError; Device._send_command returns a "
         "list; refresh() does not raise when the transport produced no frame. Non-trivial: hostile bytes pass marker+minimum "
-        "length of their layer or carry a valid signature/tag. Timing: the hostile packet may arrive anywhere in, or within a loop iteration of the end of, the 2 s read window (loop run with 1 ms processing latency per iteration). Distinct by (recipe, phase, api, cuts, delay).")
+        "length of their layer or carry a valid signature/tag. Configuration: a quarter of the cases run with DEBUG logging effective (as with the CLI's --debug). After its bytes the peer may close or reset the connection. Timing: the hostile packet may arrive anywhere in, or within a loop iteration of the end of, the 2 s read window (loop run with 1 ms processing latency per iteration). Distinct by (recipe, phase, api, cuts, delay).")
 ASSUMPTIONS = ["exceptions raised inside protocol callbacks do not reach the caller; they are counted, not judged"]
 
 TOKEN = hashlib.sha512(b"c09 token").digest()
@@ -55,6 +55,8 @@ def check_case(case: dict):
                 data = hostile.build(recipe, key)
                 out["hostile"] = data
                 conn.send_stream(data, delay=case.get("delay", dev_.latency), cuts=cuts)
+                if case.get("then_close") is not None:
+                    conn.close(delay=case.get("delay", dev_.latency) + case["then_close"], reset=bool(case.get("reset")))
                 return ("drop",)
             return None
 
@@ -73,6 +75,8 @@ def check_case(case: dict):
                     data = hostile.build(recipe, key)
                     out["hostile"] = data
                     conn.send_stream(data, delay=dev.latency, cuts=cuts)
+                    if case.get("then_close") is not None:
+                        conn.close(delay=dev.latency + case["then_close"], reset=bool(case.get("reset")))
                     return
                 orig(conn, p)
             dev._handshake = hs
@@ -140,7 +144,12 @@ def check_case(case: dict):
             except Exception:
                 pass
 
-    vloop.run(main, net, tick=case.get("tick", 0.0))
+    if case.get("debug"):
+        from .. import harness
+        with harness.debug_logging():
+            vloop.run(main, net, tick=case.get("tick", 0.0))
+    else:
+        vloop.run(main, net, tick=case.get("tick", 0.0))
     exc = out.get("exc")
     call = out.get("call")
     if call is None:
@@ -198,7 +207,7 @@ def _nontrivial(case) -> bool:
 
 def _run_one(ctx, case):
     import json
-    key = hash((json.dumps(case["hostile"], sort_keys=True), case["version"], case["phase"], case["api"], tuple(case.get("cuts", [])), case.get("delay"), case.get("tick")))
+    key = hash((json.dumps(case["hostile"], sort_keys=True), case["version"], case["phase"], case["api"], tuple(case.get("cuts", [])), case.get("delay"), case.get("tick"), case.get("debug"), case.get("then_close"), case.get("reset")))
     nt = _nontrivial(case)
     cls = f"v{case['version']}/{case['phase']}/{case['api']}"
     ctx.case(key, nt, cls=cls)
@@ -252,6 +261,25 @@ def _catalogue():
                 if api == "ac" and phase == "auth":
                     continue
                 cases.append({"version": 3, "phase": phase, "api": api, "hostile": r, "cuts": []})
+    # configuration: DEBUG logging effective (CLI --debug); every type nibble at every phase, some truncated shapes
+    for pt in range(16):
+        for phase in ("auth", "send"):
+            for api in ("lan", "device"):
+                cases.append({"version": 3, "phase": phase, "api": api, "debug": True, "cuts": [],
+                              "hostile": {"t": "v3", "ptype": pt, "inner": {"t": "v2"}, "enc": "ok", "tag": "ok"}})
+    for r in v2[:12]:
+        cases.append({"version": 2, "phase": "send", "api": "device", "debug": True, "cuts": [], "hostile": r})
+    # the peer sends bytes that never complete a packet (or nothing) and hangs up before the read timeout
+    for version in (2, 3):
+        for phase in (("send",) if version == 2 else ("auth", "send")):
+            for data in ("", "83", "8370", "837000402001", "5a5a0111", "5a5a01116800"):
+                for then_close in (0.0, 0.5, 1.9):
+                    for reset in (False, True):
+                        for api in ("lan", "device", "ac"):
+                            if api == "ac" and phase == "auth":
+                                continue
+                            cases.append({"version": version, "phase": phase, "api": api, "cuts": [], "then_close": then_close, "reset": reset,
+                                          "hostile": {"t": "raw", "data": data}})
     # timing edge: the hostile packet arrives within one loop iteration of the end of the 2 s read window (the loop
     # is run with a processing latency of 1 ms per iteration), for every type nibble
     for pt in range(16):
@@ -279,7 +307,8 @@ def run(ctx) -> None:
         return st.fixed_dictionaries({
             "version": st.just(version), "phase": st.sampled_from(phases), "api": st.sampled_from(["lan", "lan", "device", "ac"]),
             "hostile": hostile.recipes(version), "cuts": gens.cut_sets(200, 4)},
-            optional={"delay": st.sampled_from([0.05, 1.0, 1.9985, 1.999, 1.9995, 2.0, 2.0005, 3.999, 5.9995]), "tick": st.sampled_from([0.0, 0.001])}).map(
+            optional={"delay": st.sampled_from([0.05, 1.0, 1.9985, 1.999, 1.9995, 2.0, 2.0005, 3.999, 5.9995]), "tick": st.sampled_from([0.0, 0.001]),
+                      "debug": st.sampled_from([False, False, False, True]), "then_close": st.sampled_from([0.0, 0.3, 1.9, 2.5]), "reset": st.booleans()}).map(
                 lambda c: dict(c, api="lan") if (c["api"] == "ac" and c["phase"] == "auth") else c)
 
     ctx.hyp("v3", cases(3), lambda c: _run_one(ctx, c), ctx.n(6000, 400000))
